@@ -578,6 +578,25 @@ func leaves(fl *Flow, v ssa.Value, at ssa.Instruction) []Leaf {
 		// load of a local variable (named results are spilled in functions with defers):
 		// every value stored into it is a possible definition
 		if u, ok := v.(*ssa.UnOp); ok && u.Op == token.MUL {
+			// a load right after a store to the same non-escaping local in the same block is the stored value
+			if a, ok := u.X.(*ssa.Alloc); ok && !fl.K.captured[a] && fl.K.fwdLoad(a) {
+				b := u.Block()
+				pos := -1
+				for i, in := range b.Instrs {
+					if in == ssa.Instruction(u) {
+						pos = i
+					}
+				}
+				for i := pos - 1; i >= 0; i-- {
+					if st, ok := b.Instrs[i].(*ssa.Store); ok && st.Addr == ssa.Value(a) {
+						if ld, isLd := st.Val.(*ssa.UnOp); !isLd || ld.X != ssa.Value(a) {
+							rec(st.Val, facts)
+							return
+						}
+						break
+					}
+				}
+			}
 			if a, ok := u.X.(*ssa.Alloc); ok && !seenAlloc[a] && !fl.K.captured[a] {
 				if _, spilled := fl.K.spill[a]; !spilled {
 					seenAlloc[a] = true
